@@ -87,6 +87,7 @@ inductive Err where
   | type          -- ImportAll on a value that is neither a string nor a map
   | exportEntry   -- "expected Key/Value pair to export" (export_top_level_ids + `from x import *` on a number)
   | call          -- "expected callable function"
+  | arith         -- "unable to perform operation '+=' with …"
   deriving DecidableEq, Repr, Inhabited
 
 /-- what an import statement names: an id (`name`), or a string (`str`) that may carry leading path
@@ -138,6 +139,27 @@ inductive Rhs where
   | ref (k : Name)
   deriving DecidableEq, Repr, Inhabited
 
+/-- compound assignment operators (`/=` yields floats, which the value model does not have) -/
+inductive COp where
+  | add | sub | mul | rem | pow
+  deriving DecidableEq, Repr, Inhabited
+
+/-- i64 arithmetic wraps -/
+def wrap64 (n : Int) : Int := (n + 9223372036854775808) % 18446744073709551616 - 9223372036854775808
+
+def powInt (a : Int) : Nat → Int
+  | 0 => 1
+  | n + 1 => wrap64 (powInt a n * a)
+
+/-- `a op= b` on integers (`%` truncates like Rust; a zero divisor and a negative exponent are outside
+the generated envelope: the result there is the left operand) -/
+def COp.apply : COp → Int → Int → Int
+  | .add, a, b => wrap64 (a + b)
+  | .sub, a, b => wrap64 (a - b)
+  | .mul, a, b => wrap64 (a * b)
+  | .rem, a, b => if b = 0 then a else Int.tmod a b
+  | .pow, a, b => if b < 0 then a else powInt a b.toNat
+
 /-- the ids an assignment target binds -/
 def Target.bound : Target → List Name
   | .id k => [k]
@@ -160,6 +182,13 @@ inductive Act where
   | fail (mk : Nat)                            -- `throw 'boom<mk>'`
   /-- `[export] t1, t2, … = r1, r2, …` — (multi-)assignment with any target shapes -/
   | assignPat (exp : Bool) (targets : List Target) (rhs : List Rhs)
+  /-- `k op= r` -/
+  | compound (k : Name) (op : COp) (r : Rhs)
+  /-- `for zi in 0..n` / `  k op= r`: a compound assignment in a top-level loop -/
+  | loopCompound (n : Nat) (k : Name) (op : COp) (r : Rhs)
+  /-- an assignment `k = v` nested in a conditional: form 0 `if true`, form 1 `if false` (not executed),
+  form 2 (and above) `match 1` / `1 then` -/
+  | condAssign (form : Nat) (k : Name) (v : Int)
   deriving DecidableEq, Repr, Inhabited
 
 /-- top-level statements: the above plus definitions of `@main` and `@test name` (their bodies print
@@ -477,6 +506,38 @@ def bindTargets (b : Bool) : List Target → List V → Frame → St → Option 
     | (some e, fr1, st1) => (some e, fr1, st1)
     | (none, fr1, st1) => bindTargets b ts vs.tail fr1 st1
 
+/-- `k op= r` (`compile_compound_assignment_op`): the right operand first, then the left one — a local
+register, or a temporary loaded by a non-local lookup; the operation is applied in place, so a non-local
+`k` is only changed through the re-export that export_top_level_ids adds at the top level -/
+def compoundStep (cfg : Cfg) (k : Name) (op : COp) (r : Rhs) (fr : Frame) (st : St) :
+    Option Err × Frame × St :=
+  match evalRhs cfg fr st [r] with
+  | some [.int b] =>
+    match readId cfg fr st k with
+    | none => (some .idNotFound, fr, st)
+    | some (.int a) =>
+      let v := V.int (op.apply a b)
+      let fr1 := if (lookup k fr.locals).isSome then bind k v fr else fr
+      (none, fr1, exportIf fr.exportTop k v st)
+    | some _ => (some .arith, fr, st)
+  | some _ =>
+    match readId cfg fr st k with
+    | none => (some .idNotFound, fr, st)
+    | some _ => (some .arith, fr, st)
+  | none => (some .idNotFound, fr, st)
+
+def compoundLoop (cfg : Cfg) (k : Name) (op : COp) (r : Rhs) : Nat → Frame → St → Option Err × Frame × St
+  | 0, fr, st => (none, fr, st)
+  | n + 1, fr, st =>
+    match compoundStep cfg k op r fr st with
+    | (some e, fr1, st1) => (some e, fr1, st1)
+    | (none, fr1, st1) => compoundLoop cfg k op r n fr1 st1
+
+/-- the loop variable `zi` of `Act.loopCompound`: a local of the frame that holds null once the
+iterator is exhausted — and, like every top-level id, exported after the loop under
+export_top_level_ids (`compile_for`) -/
+def loopVar : Name := 89
+
 def execAct (cfg : Cfg) (fs : FS) (rec : Runner) (a : Act) (fr : Frame) (st : St) :
     Option (Option Err × Frame × St) :=
   match a with
@@ -523,6 +584,17 @@ def execAct (cfg : Cfg) (fs : FS) (rec : Runner) (a : Act) (fr : Frame) (st : St
     match evalRhs cfg fr st rhs with
     | none => some (some .idNotFound, fr, st)
     | some vs => some (bindTargets (exp || fr.exportTop) targets vs fr st)
+  | .compound k op r => some (compoundStep cfg k op r fr st)
+  | .loopCompound n k op r =>
+    match compoundLoop cfg k op r n fr st with
+    | (some e, fr1, st1) => some (some e, fr1, st1)
+    | (none, fr1, st1) => some (none, bind loopVar .null fr1, exportIf fr1.exportTop loopVar .null st1)
+  | .condAssign form k v =>
+    if form = 1 then
+      -- not executed, but `k` is a local of the frame from here on (a register that holds null
+      -- unless it was assigned before)
+      some (none, if (lookup k fr.locals).isSome then fr else bind k .null fr, st)
+    else some (none, bind k (.int v) fr, exportIf fr.exportTop k (.int v) st)
 
 def execActs (cfg : Cfg) (fs : FS) (rec : Runner) :
     List Act → Frame → St → Option (Option Err × Frame × St)
@@ -539,6 +611,8 @@ def Act.reads : Act → List Name
   | .show _ k => [k]
   | .exportId _ src => [src]
   | .assignPat _ _ rhs => rhs.filterMap (fun r => match r with | .ref k => some k | _ => none)
+  | .compound k _ r => k :: (match r with | .ref x => [x] | _ => [])
+  | .loopCompound _ k _ r => k :: (match r with | .ref x => [x] | _ => [])
   | _ => []
 
 def Act.binds : Act → List Name
@@ -548,6 +622,8 @@ def Act.binds : Act → List Name
   | .importMods items => (items.filter Item.binds).map Item.target
   | .fromImport _ items => (items.filter Item.binds).map Item.target
   | .assignPat _ targets _ => boundIds targets
+  | .condAssign _ k _ => [k]
+  | .loopCompound _ _ _ _ => [loopVar]
   | _ => []
 
 /-- ids the body reads before it binds them itself (the parser's `accessed_non_locals`) -/
